@@ -14,7 +14,9 @@ func c01Scenarios(tier core.Tier) []scenario {
 	orcs := func() []chain.Oracle { return []chain.Oracle{chain.PureOracle{}} }
 	return []scenario{
 		{Name: "c01.kv", Universe: "U-kv", Depth: 6 + d, Orcs: orcs,
-			Menu: chain.Menu{Recv: true, Sync: true, WalkSome: true, Play: true, Restart: true, Submit: []string{"pW1", "pR"}, Mine: 1}},
+			Menu: chain.Menu{Recv: true, Sync: true, WalkSome: true, Play: true, Restart: true, Submit: []string{"pW1", "pR"}, Mine: 1, Blocks: []string{"k1", "k2", "k3", "k4", "j2", "j3"}}},
+		{Name: "c01.kv.del", Universe: "U-kv", Depth: 6 + d, Orcs: orcs,
+			Menu: chain.Menu{Recv: true, Sync: true, WalkSome: true, Play: true, Submit: []string{"pW1"}, Mine: 1, Blocks: []string{"k1", "kd2", "k2", "k3"}}},
 		{Name: "c01.amt", Universe: "U-amt", Depth: 6 + d, Orcs: orcs,
 			Menu: chain.Menu{Recv: true, Sync: true, WalkSome: true, Play: true, Restart: true, Submit: []string{"sA"}, Mine: 1}},
 		{Name: "c01.3way", Universe: "U-3way-honest", Depth: 5 + d, Orcs: orcs,
@@ -38,7 +40,7 @@ func c02Scenarios(tier core.Tier) []scenario {
 		{Name: "c02.fee", Universe: "U-3way-honest", Depth: 6 + d, Orcs: orcs,
 			Menu: chain.Menu{Recv: true, Sync: true, WalkSome: true, KeyEvents: true, Submit: []string{"sFee"}, Blocks: []string{"a1", "a2", "d2"}}},
 		{Name: "c02.kv", Universe: "U-kv", Depth: 5 + d, Orcs: orcs,
-			Menu: chain.Menu{Recv: true, Sync: true, WalkSome: true, Submit: []string{"pW1", "pW2"}, Mine: 1}},
+			Menu: chain.Menu{Recv: true, Sync: true, WalkSome: true, Submit: []string{"pW1", "pW2"}, Mine: 1, Blocks: []string{"k1", "k2", "k3", "k4", "j2", "j3"}}},
 	}
 }
 
